@@ -9,7 +9,8 @@
    an ASCII character and string(c) re-encodes the rune, so on well-formed UTF-8 the loops are
    byte-transparent; the two places where text/scanner is not (it drops ONE leading U+FEFF and
    replaces every byte that does not start a well-formed sequence by U+FFFD) are modelled
-   explicitly by [sc_view].
+   explicitly by [sc_raw]; [sc_view] is what the repaired code gets out of it (it puts a U+FEFF
+   of its own in front of the format).
 
    The Go value-literal / type-literal renderer (pkg/gengo/internal/dumper.go, properties C10/C11)
    is NOT modelled: what Value(x) / ID(x) render to is data observed by the harness
@@ -90,7 +91,12 @@ Definition has_bom (s : bytes) : bool :=
   end.
 Definition drop_bom (s : bytes) : bytes := if has_bom s then skipn 3 s else s.
 
-Definition sc_view (s : bytes) : bytes := sc_go (drop_bom s) 0.
+(* what text/scanner makes of a source (the library as it is) *)
+Definition sc_raw (s : bytes) : bytes := sc_go (drop_bom s) 0.
+
+(* the repaired code (fixes/C09-5-leading-bom.diff) hands the scanner "\uFEFF" + text: the mark the
+   scanner discards is that one, every U+FEFF of the text itself comes through *)
+Definition sc_view (s : bytes) : bytes := sc_raw (bom ++ s).
 
 (* strings.TrimLeft(format, "\n") *)
 Fixpoint trim_nl (s : bytes) : bytes :=
@@ -105,10 +111,15 @@ Record fixes := mk_fixes {
   fx_pct : bool;     (* printer.go: "%%" no longer re-reads the second '%' as the start of a verb *)
   fx_delim : bool;   (* template: the apostrophe after a placeholder whose argument is nil is consumed *)
   fx_nilif : bool;   (* template / Snippets / Fragments: a Go-nil Snippet counts as nil instead of being dereferenced *)
-  fx_at : bool       (* template: '@' not followed by a name character is ordinary text *)
+  fx_at : bool;      (* template: '@' not followed by a name character is ordinary text *)
+  fx_bom : bool      (* template / printer: the scanner is handed a byte order mark of its own in front of the format *)
 }.
-Definition all_fixed := mk_fixes true true true true.
-Definition none_fixed := mk_fixes false false false false.
+Definition all_fixed := mk_fixes true true true true true.
+Definition none_fixed := mk_fixes false false false false false.
+
+(* s.Init(bytes.NewBuffer([]byte("\uFEFF" + text))) after the repair, s.Init(bytes.NewBuffer([]byte(text))) before;
+   [sc_in all_fixed s] is [sc_view s], [sc_in none_fixed s] is [sc_raw s] *)
+Definition sc_in (fx : fixes) (s : bytes) : bytes := sc_raw (if fx_bom fx then bom ++ s else s).
 
 (* what a scanner knows about an argument: a Go-nil interface, or IsNil() and the result of Frag *)
 Inductive aview := AVNil | AV (isnil : bool) (out : res bytes).
@@ -194,7 +205,7 @@ Section Template.
         else after_name named (Some c) (if Ascii.eqb c c_at then name_loop r' [] else scan r')
     end.
 
-  Definition tpl_impl (format : bytes) : res bytes := scan (sc_view (trim_nl format)).
+  Definition tpl_impl (format : bytes) : res bytes := scan (sc_in fx (trim_nl format)).
 End Template.
 
 Section Sprintf.
@@ -229,7 +240,7 @@ Section Sprintf.
         else emit [c] (sp_scan r args)
     end.
 
-  Definition sp_impl (format : bytes) (args : list sview) : res bytes := sp_scan (sc_view format) args.
+  Definition sp_impl (format : bytes) (args : list sview) : res bytes := sp_scan (sc_in fx format) args.
 End Sprintf.
 
 (* ------------------------------------------------------------------------------------------ *)
